@@ -28,11 +28,28 @@ MergesExist == (cfg.d >= 2 /\ cfg.n >= 3 * cfg.d) => \E c \in SmallParts(cfg.n, 
 ClipDepth(n, d) == IF d > n THEN n ELSE d
 ThinAxis == \A n \in 1..6, d \in 1..9 : \A x \in 0..(n - 1) :
      ReportCount(<<n>>, ClipDepth(n, d), x) = 1 /\ Reported(<<n>>, ClipDepth(n, d), x) = {x}
+Extents == <<40, 44, 48>>
+(* half-pixel picks (even templates): exactly one owner for every doubled coordinate, also ON a chunk boundary; the closed window
+   duplicates exactly the picks on an inner boundary *)
+ExactlyOneOwnerHalfPixel == \A c \in PartsOk(cfg.n, cfg.d) : \A x2 \in (-1)..(2 * cfg.n - 2) : Cardinality(Owners2(c, x2)) = 1
+ClosedWindowHazard == \A c \in PartsOk(cfg.n, cfg.d) : \A x2 \in (-1)..(2 * cfg.n - 2) :
+     (Cardinality(Owners2Closed(c, x2)) > 1) <=> (\E i \in 2..Len(c) : x2 = 2 * StartOf(c, i) - 1)
+(* the landscape edge is outside the keep-window for every template size with the code's depth rule; the historical rule leaves
+   the FIRST sample inside the window exactly for even sizes *)
+LandscapeEdge == \A s \in 2..14 : \A ci \in DepthRule(s)..24 :
+     /\ EdgeOutsideWindow(s, DepthRule(s), ci) /\ WindowCovered(s, DepthRule(s), ci)
+     /\ (EdgeOutsideWindow(s, DepthRuleCeil(s), ci) <=> s % 2 = 1)
+     /\ (s % 2 = 0 => InWindow2(LandFirst2(s, DepthRuleCeil(s)), ci))
+(* chunkings for the even-template layout: a boundary 1.5 and 0.5 px before and after the centre of a particle, on every axis *)
+EvenPlants2 == <<<<23, 21, 27>>, <<47, 59, 67>>, <<63, 25, 73>>, <<25, 69, 31>>, <<55, 61, 29>>>>      \* doubled centres, 8^3 template
+EvenFamilies == {[a \in 1..3 |-> IF a = ax THEN <<(EvenPlants2[p][ax] + k) \div 2, Extents[ax] - (EvenPlants2[p][ax] + k) \div 2>> ELSE <<Extents[a]>>] :
+                    ax \in 1..3, p \in {1, 2}, k \in {-3, -1, 1, 3}}
+                \cup {<<<<12, 12, 16>>, <<10, 11, 23>>, <<14, 20, 14>>>>, <<<<13, 11, 16>>, <<44>>, <<34, 14>>>>}
+EmitEven == (done /\ cfg.n = 6 /\ cfg.d = 1) => \A f \in EvenFamilies : PrintT(ToJson([even |-> TRUE, extents |-> Extents, chunks |-> f, plants2 |-> EvenPlants2]))
 SlabExtents == <<4, 44, 48>>
 SlabFamilies == {<<<<4>>, <<44>>, <<48>>>>, <<<<4>>, <<22, 22>>, <<24, 24>>>>, <<<<2, 2>>, <<44>>, <<16, 16, 16>>>>}
 BallNotCube == \A r10 \in {10, 16, 25, 40, 60} : CornerOffset(r10) \in DiagonalOffsets(r10) /\ ~InBall(CornerOffset(r10), r10)
 (* 3-D chunkings to replay: products of 1-D partitions of the image extents used by the harness *)
-Extents == <<40, 44, 48>>
 ChunkFamilies == {<<<<40>>, <<44>>, <<48>>>>, <<<<20, 20>>, <<44>>, <<48>>>>, <<<<40>>, <<22, 22>>, <<24, 24>>>>, <<<<13, 13, 14>>, <<15, 15, 14>>, <<16, 16, 16>>>>,
                   <<<<25, 15>>, <<30, 14>>, <<11, 37>>>>, <<<<8, 8, 8, 8, 8>>, <<44>>, <<12, 12, 12, 12>>>>, <<<<33, 7>>, <<9, 35>>, <<48>>>>,
                   \* chunks smaller than the overlap depth (4 for LoG/DoG, 6 for the template matcher): dask merges them
